@@ -30,9 +30,12 @@ Inductive aerr := EValue | EType | EConflict.      (* ValueError, TypeError, arg
 
 Definition twin (s : str) : str := ddx ++ skipn 2 s.          (* '--x-' + i[2:] *)
 
-(* add_user_argument: the names handed to parser.add_argument *)
-Definition user_names (u : usage) (names : list str) : option (list str) :=
+(* add_user_argument: the names handed to parser.add_argument.
+   fixed = false: as first written.  fixed = true: the repaired function, which also rejects an option string
+   without a name (the bare double dash, what argument('') hands over) with ValueError. *)
+Definition user_names (fixed : bool) (u : usage) (names : list str) : option (list str) :=
   if existsb (fun i => negb (starts_with dd i)) names then None
+  else if fixed && existsb (str_eqb dd) names then None
   else if existsb (starts_with ddx) names then None
   else Some (match u with UParse => names ++ map twin names | UHelp => names end).
 
@@ -71,9 +74,9 @@ Definition action_strings (k : action) (names : list str) : option (list str * l
   end.
 
 (* the options.bfg builtin argument (names..., action=k), after the names got their leading dashes *)
-Definition declare (u : usage) (d : list str * action) (p : parser) : parser + aerr :=
+Definition declare (fixed : bool) (u : usage) (d : list str * action) (p : parser) : parser + aerr :=
   let (names0, k) := d in
-  match user_names u names0 with
+  match user_names fixed u names0 with
   | None => inr EValue
   | Some names =>
       match names with
@@ -92,15 +95,17 @@ Definition declare (u : usage) (d : list str * action) (p : parser) : parser + a
       end
   end.
 
-Fixpoint declare_from (i : nat) (u : usage) (ds : list (list str * action)) (p : parser) : parser + (nat * aerr) :=
+Fixpoint declare_from (fixed : bool) (i : nat) (u : usage) (ds : list (list str * action)) (p : parser)
+  : parser + (nat * aerr) :=
   match ds with
   | [] => inl p
-  | d :: r => match declare u d p with
-              | inl p' => declare_from (S i) u r p'
+  | d :: r => match declare fixed u d p with
+              | inl p' => declare_from fixed (S i) u r p'
               | inr e => inr (i, e)
               end
   end.
-Definition declare_all := declare_from 0.
+Definition declare_all := declare_from false 0.              (* add_user_argument as first written *)
+Definition declare_all_fixed := declare_from true 0.         (* the repaired add_user_argument *)
 
 (* ------------------------------------------------------------------------------------------ parse *)
 Definition ns := list (str * value).
